@@ -8,13 +8,19 @@ HERE = os.path.dirname(os.path.dirname(os.path.abspath(__file__)))
 CHECKS = {
     # id: (level, technique, level text, level note, design ref)
     "C14": ("exploration",
-            "in-process reference oracle over an exhaustive small scope, under ASan+UBSan and sbepp's assertion handler",
+            "in-process reference oracle over an exhaustive small scope plus seeded samples of large lengths and all byte "
+            "values, under ASan+UBSan and sbepp's assertion handler; the same calls evaluated in forced constant "
+            "expressions (C++20/2b) and compared with the run-time execution and the reference",
             "Every call of static_array_ref's assign_string/assign_range/assign/fill/strlen/strlen_r in a complete small "
             "scope (all N<=3 quick / N<=6 thorough, all contents and inputs over {NUL,a,b}, all eos modes and overloads, "
             "char/int8/uint8 elements) is executed on the real header and compared byte-for-byte (with guard elements) "
-            "against an independent reference; sanitizers watch the same executions. Exhaustive inside the scope, "
-            "nothing outside it.",
-            "scope bounds as stated; alphabet of three letters stands for all byte values; compilers g++12/clang++14",
+            "against an independent reference; sanitizers watch the same executions. A second driver samples lengths "
+            "7..1000 (around every power of two) with contents over all 256 byte values and NULs at every position, a "
+            "third evaluates the scope N<=3 (thorough 4) in constant expressions with the array embedded in a larger "
+            "buffer. Exhaustive inside the small scope, sampled outside it.",
+            "small-scope bounds as stated; lengths above 1000 and contents not drawn by the seeded sampler are not "
+            "executed; constant evaluation only for char arrays over char bytes (what sbepp documents as constexpr); "
+            "compilers g++12/clang++14",
             "DESIGN.md section 3, C14"),
     "C13": ("exploration",
             "lock-step comparison with a std::vector model after every operation (exhaustive DFS + seeded random walks), "
